@@ -213,6 +213,104 @@ def gen_full_history(rng, maxlen, want_singular=None, throwing=False, multi=Fals
     return p, alg, ops, qs
 
 
+def gen_refusal_history(rng, maxlen, alg=None):
+    """round 5 (seeded/C20-seed3): one long-lived chol/gso/svd object that is REFUSED (BadRegularization: singular system,
+    list shorter than the defect) and then handed, by `reset_new`, (a) a full-rank system, (b) a singular system the
+    configured list resolves, (c) the refused system again / another one it does not resolve.  After `reset_new` (and
+    after `min_x…`) the answers — values or the refusal — must be those of a fresh object; only the queries asked
+    while the refusal of the very same system and configuration is pending are outside (model: `after-throw`).
+    The driver decides `resolves` by |list| >= defect, so a configuration is kept for a new system only if it resolves it
+    exactly (then |list| >= defect) or is shorter than its defect; otherwise the caller re-configures."""
+    while True:
+        ps = gen_problems(rng, unit=True, k=3)
+        sing = [q for q in ps if q["defect"] > 0]
+        reg = [q for q in ps if q["defect"] == 0]
+        if sing and reg:
+            break
+        if sing and not reg:                           # make one: a regular problem of its own
+            for _ in range(20):
+                q = _problem(rng, unit=True)
+                if q["defect"] == 0:
+                    ps = ps[:2] + [q]
+                    reg = [q]
+                    break
+            if reg:
+                break
+    p = sing[0]
+    order = [q for q in ps if q is not p] + [p]       # the last defined problem is the one `new` uses
+    alg = alg or rng.choice(["gso", "gso", "chol", "svd"])
+    bad = sorted(rng.sample(range(1, p["n"] + 1), rng.randint(0, p["defect"] - 1)))
+    ops = [l for q_ in order[:-1] for l in g.problem_lines(q_, None)] + g.problem_lines(p, bad)
+    ops += [f"new {alg} solver", f"info {alg}", "state"]
+    p["_all"] = order
+    stats = {"refused": 0, "then_regular": 0, "then_singular_resolving": 0, "then_refused_again": 0}
+
+    def queries(cur, k):
+        out = []
+        for _ in range(k):
+            r = rng.random()
+            n, m = cur["n"], cur["m"]
+            if r < 0.35:
+                out.append("x")
+            elif r < 0.5:
+                out.append("qxx %d %d" % (rng.randint(1, n), rng.randint(1, n)))
+            elif r < 0.62:
+                out.append("defect")
+            elif r < 0.72:
+                out.append("r")
+            elif r < 0.8:
+                out.append("rtr")
+            elif r < 0.88:
+                out.append("lindep %d" % rng.randint(1, n))
+            elif r < 0.94:
+                out.append("qbb %d %d" % (rng.randint(1, m), rng.randint(1, m)))
+            else:
+                out.append("qbx %d %d" % (rng.randint(1, m), rng.randint(1, n)))
+        return out
+
+    def outcome(cur, cfg):
+        if cur["defect"] == 0:
+            return "regular"
+        S = list(range(1, cur["n"] + 1)) if cfg == "all" else cfg
+        return "resolving" if g.resolves(cur, S) else "refused"
+
+    qs = queries(p, rng.randint(1, 2))                 # refused (the first one), then asked again while pending
+    stats["refused"] += 1
+    cur, cfg = p, bad
+    pending = True
+    for _ in range(rng.randint(2, max(3, maxlen // 4))):
+        r = rng.random()
+        if r < 0.7:
+            k = rng.randrange(len(order))
+            cur = order[k]
+            qs.append(f"reset_new {k + 1}")
+            keep = cfg == "all" or (all(1 <= i <= cur["n"] for i in cfg) and
+                                    (cur["defect"] == 0 or g.resolves(cur, cfg) or len(cfg) < cur["defect"]))
+            if not keep or (outcome(cur, cfg) == "refused" and rng.random() < 0.4):
+                cs = _subsets(rng, cur)
+                if cs and rng.random() < 0.7:
+                    cfg = rng.choice(cs)
+                    qs.append("min_x %d %s" % (len(cfg), " ".join(map(str, cfg))))
+                else:
+                    cfg = "all"
+                    qs.append("min_x_all")
+        elif r < 0.85:
+            # back to a list too short for the current system (refused again when singular)
+            cfg = sorted(rng.sample(range(1, cur["n"] + 1), rng.randint(0, max(0, cur["defect"] - 1))))
+            qs.append("min_x %d %s" % (len(cfg), " ".join(map(str, cfg))))
+        else:
+            qs.append("reset")
+        oc = outcome(cur, cfg)
+        if pending:
+            stats["then_regular" if oc == "regular" else "then_singular_resolving" if oc == "resolving" else "then_refused_again"] += 1
+        pending = oc == "refused"
+        if pending:
+            stats["refused"] += 1
+        qs += queries(cur, rng.randint(1, 3))
+    p["_refusal"] = stats
+    return p, alg, ops, qs
+
+
 def gen_adj_history(rng, maxlen, multi=False):
     """one long-lived Adj: queries interleaved with set_algorithm switches (and back) and set(same data)
     (multi: also `reset_new k` = set(data of another problem): same or other shape, correlated blocks of band > 0)"""
@@ -404,8 +502,21 @@ def run_full_state(ctx, corr, n=None, maxlen=None):
         corr.count("full_reset_new", len(rn))
         corr.count("full_reset_new_other_size", sum(1 for k in rn if (p["_all"][k]["m"], p["_all"][k]["n"]) != (p["m"], p["n"])))
         corr.count("full_repeats", sum(1 for a, b in zip(qs, qs[1:]) if a == b))
+    # round 5: refused solves FOLLOWED by reset_new to full-rank / singular-resolving systems on the same object, with
+    # the fresh-object oracle on (a refusal must not leak into another system: seeded/C20-seed3, ICGS error counter)
+    rgens = [gen_refusal_history(ctx.rng, maxlen, alg=("gso" if k % 2 == 0 else None)) for k in range(max(40, n // 6))]
+    for (p, alg, ops, qs) in rgens:
+        corr.case(key=" ".join(ops + qs), sample={"alg": alg, "defect": p["defect"], "history": qs[:14]} if corr_first(corr, "refusal_sample") else None)
+        corr.count(f"full_refusal_{alg}")
+        for k_, v_ in p["_refusal"].items():
+            corr.count("full_refusal_" + k_, v_)
     c1 = run_stream(ctx, corr, exe, drv, gens, "fullstate", "AdjBaseFull")
     c2 = run_stream(ctx, corr, exe, drv, tgens, "fullstate-throw", "AdjBaseFull")
+    c3 = run_stream(ctx, corr, exe, drv, rgens, "fullstate-refusal", "AdjBaseFull")
+    corr.count("full_refusal_histories", len(rgens))
+    corr.count("full_refusal_lines_compared", c3)
+    if corr.stats.get("full_refusal_then_regular", 0) < 10 or corr.stats.get("full_refusal_then_singular_resolving", 0) < 10:
+        corr.inconclusive.append("C04 full solvers: fewer than 10 refused solves followed by a full-rank / by a singular resolving system")
     corr.count("full_lines_compared", c1)
     corr.count("full_throw_histories", len(tgens))
     corr.count("full_throw_lines_compared", c2)
@@ -561,6 +672,21 @@ def translate(ctx):
     out = ctx.lean / "Gama" / "Gen" / "NetCascade.lean"
     if not out.exists() or out.read_text() != text:
         out.write_text(text)
+    translate_icgs(ctx)
+
+
+def translate_icgs(ctx):
+    """round 5: regenerate lean/Gama/Gen/IcgsError.lean (reset / increment / read sites of ICGS::error_icgs2_defect,
+    interpreted by Model/FullState.lean `solveWith`) from icgs.cpp, icgs.h, adj_gso.h of the tree under test"""
+    sys.path.insert(0, str(ctx.verif / "tools" / "gen"))
+    import c20_icgs
+    try:
+        info, _ = c20_icgs.write(ctx.repo, ctx.lean)
+    except c20_icgs.Unparsable as e:
+        raise TieBroken("tools/gen/c20_icgs.py", str(e))
+    except OSError as e:
+        raise TieBroken("tools/gen/c20_icgs.py", f"source not readable: {e}")
+    ctx.icgs_sites = info
 
 
 def net_harness(ctx):
